@@ -535,12 +535,18 @@ def serveH : Handler := fun inp impl => do
       && Spec.mdCarried sentMD (parseSMD o "bmd") && getStrD o "bmethod" == getStrD o "method"
     -- the harness's messages have the sizes the input names
     let sizesOK := hexLens sent == req && hexLens replies == rep
-    let (p', res) := p.call some lookup (fun _ _ => none) l true (toMD sentMD) method true
     let rt := routeOf method
+    -- the access gate of this call's target: the verdict of the target's own rules (oracle: the real
+    -- `AccessDeniedAddr`, property C12) is the model's `gate` parameter
+    let deniedR : Bool := match rt with
+      | some (i, _, _) => (match (getArrD impl "denied")[i]? with | some (.bool b) => b | _ => false)
+      | none => false
+    let gate : Gate := gateOf (fun _ => deniedR) (fun _ _ => true)
+    let (p', res) := p.call some lookup gate l true (toMD sentMD) method true
     -- the model's prediction
     let (cls, mcode, mback) : String × Nat × Option Nat :=
       match res, rt with
-      | some (.status sc), _ => ((if sc == codeNotFound then "notfound" else "status"), sc, none)
+      | some (.status sc), _ => ((if sc == codeNotFound then "notfound" else if sc == codePermissionDenied then "denied" else "status"), sc, none)
       | some (.proxied _ _ (some sec)), some (_, b, _) =>
         let oc := outcome host lim sec (serveBackendOf impl b) req rep scode
         if !handshake host sec (serveBackendOf impl b) then ("unreachable", oc, none)
@@ -559,11 +565,12 @@ def serveH : Handler := fun inp impl => do
       | none => (code == codeNotFound && hits == 0 && backend.isNone,
                  if code != codeNotFound then "noroute-wrong-status" else "noroute-backend-contacted")
       | some (_, b, t) =>
-        let only := hits ≤ 1 && (backend.isNone || backend == some b)
+        let only := hits ≤ 1 && (backend.isNone || backend == some b) && !(deniedR && hits > 0)
         let ideal : Security := if t.grpcs then .tls t.serverName t.skipVerify else .insecure
         let reach := handshake host ideal (serveBackendOf impl b)
         let within := lim.allOK req rep
-        if !only then (false, "backend-of-no-matching-route")
+        if !only then (false, if deniedR && hits > 0 then "denied-call-reached-a-backend" else "backend-of-no-matching-route")
+        else if deniedR then (code == codePermissionDenied, "denied-call-wrong-status")
         else if !reach then (true, "")
         else if !within then (code == codeResourceExhausted, "message-over-the-limit-not-reported")
         else if backend != some b then
@@ -587,7 +594,7 @@ def serveH : Handler := fun inp impl => do
      fwds + (if cls == "forward" then 1 else 0))
   let (_, model, agree, spec, failTag, classes, fwds) :=
     (calls.zip obs).foldl step (Proxy.start listeners, [], true, true, "", [], 0)
-  let order := ["forward", "forward-tls", "limit", "unreachable", "notfound"]
+  let order := ["forward", "forward-tls", "limit", "unreachable", "denied", "notfound"]
   let cls := (order.filter classes.contains).foldl (fun a c => if a.isEmpty then c else a ++ "+" ++ c) ""
   let mixed := listeners.contains true && listeners.contains false
   let tag := if failTag.isEmpty then (if mixed then "mixed:" else "") ++ cls else failTag
